@@ -139,6 +139,15 @@ def expr_text(e, top=True):
     return t if top else '(' + t + ')'
 
 
+# layout of the generated text: 'tight' (no optional blanks) or 'spaced' (a blank before every
+# list comma and before every statement separator: the blanks are kept in the stored program)
+LAYOUT = 'tight'
+
+
+def _comma():
+    return ' ,' if LAYOUT == 'spaced' else ','
+
+
 def stmt_text(s):
     k = s[0]
     if k == 'print':
@@ -159,7 +168,7 @@ def stmt_text(s):
             t += ' STEP %s' % expr_text(s[5])
         return t
     if k == 'next':
-        return 'NEXT' + ((' ' + ','.join(s[2])) if s[2] else '')
+        return 'NEXT' + ((' ' + _comma().join(s[2])) if s[2] else '')
     if k == 'while':
         return 'WHILE %s' % expr_text(s[2])
     if k == 'wend':
@@ -175,7 +184,7 @@ def stmt_text(s):
     if k == 'else':
         return 'ELSE' + ('' if s[1] is None else ' %d' % s[1])
     if k == 'on':
-        return 'ON %s %s %s' % (expr_text(s[1]), s[2].upper(), ','.join('%d' % n for n in s[3]))
+        return 'ON %s %s %s' % (expr_text(s[1]), s[2].upper(), _comma().join('%d' % n for n in s[3]))
     if k == 'end':
         return 'END'
     if k == 'rem':
@@ -193,7 +202,7 @@ def stmt_text(s):
     if k == 'data':
         return 'DATA' + s[1]
     if k == 'read':
-        return 'READ ' + ','.join(s[1])
+        return 'READ ' + _comma().join(s[1])
     if k == 'restore':
         return 'RESTORE' + ('' if s[1] is None else ' %d' % s[1])
     raise ModelError('bad statement %r' % (s,))
@@ -220,7 +229,7 @@ def line_text(stmts):
             else:
                 out += ' ' + t
         else:
-            out += ':' + t
+            out += (' :' if LAYOUT == 'spaced' else ':') + t
         prev = s
     return out
 
